@@ -569,14 +569,16 @@ impl TextResource {
     fn create_milestones(&mut self, interval: usize) {
         for (charpos, (bytepos, _)) in self.text.char_indices().enumerate() {
             if charpos > 0 && charpos % interval == 0 {
-                self.positionindex.0.insert(
-                    charpos,
-                    PositionIndexItem {
+                //(an entry that is there already, with the text selections of a resource that comes
+                // from elsewhere, is a milestone as it is: it must not be replaced by an empty one)
+                self.positionindex
+                    .0
+                    .entry(charpos)
+                    .or_insert_with(|| PositionIndexItem {
                         bytepos,
                         end2begin: smallvec!(),
                         begin2end: smallvec!(),
-                    },
-                );
+                    });
                 self.byte2charmap.insert(bytepos, charpos);
             }
         }
